@@ -28,6 +28,7 @@ GROUP = {"isfile": "isfile", "xmlparse": "xmlparse", "encode": "encode", "create
 UNMODELLED = {"exists", "listdir", "stat"}  # look-ups of the *input* made outside the protocol steps
 SWALLOWED = {"isfile", "stat"}              # os.path.isfile / exists turn a failing stat into the answer False
 NOT_FAULTABLE = {"wclean", "remove", "event"}
+MERGED = {"encode", "decode", "iterate", "write", "read"}   # several raw calls of these are one operation; two existence checks, creations or removals in a row are two
 LOCAL_LOOPS = {"encode", "decode", "iterate", "event"}   # computation on data the thread owns; splitting it adds no shared-state access        # the deletion of the helper file itself (excluded by the property)
 
 
@@ -59,7 +60,7 @@ class Ctl:
         lst = self.raw.setdefault(t, [])
         idx = len(lst)
         lst.append((label, real_os.path.basename(str(path)) if path is not None else ""))
-        new_op = self.last.get(t) != GROUP.get(label, label)
+        new_op = self.last.get(t) != GROUP.get(label, label) or GROUP.get(label, label) not in MERGED
         self.last[t] = GROUP.get(label, label)
         if self.sched is not None and label not in UNMODELLED and (new_op or (self.fine and label in LOCAL_LOOPS)):
             self.sched.arrive(t, GROUP.get(label, label))
@@ -344,7 +345,7 @@ def canon_trace(raw):
             out.append(None)          # an unmodelled call separates groups
             continue
         g = GROUP[label]
-        if not out or out[-1] != g:
+        if not out or out[-1] != g or g not in MERGED:
             out.append(g)
     return [x for x in out if x is not None]
 
@@ -408,11 +409,22 @@ class Scheduler:
         for t in range(self.n):
             threads[t].start()
             self.wait_arrival(t)       # runs to its first stop (or finishes) before the next one starts
-        for t in list(schedule) + [t for t in range(self.n) for _ in range(40)]:
+        def one(t):
             if self.finished[t] or self.waiting_at[t] is None:
-                continue
+                return False
             self.go[t].release()
             self.wait_arrival(t)
+            return True
+        for item in list(schedule) + [t for t in range(self.n) for _ in range(40)]:
+            if isinstance(item, (tuple, list)):
+                # a policy step (t, op): let t run until it is about to do `op` (or until its end when op is None) —
+                # independent of how many operations the code under test performs on the way
+                t, op = item
+                for _ in range(400):
+                    if self.finished[t] or self.waiting_at[t] == op or not one(t):
+                        break
+            else:
+                one(item)
         for th in threads:
             th.join(timeout=self.TIMEOUT)
             if th.is_alive():
